@@ -309,15 +309,37 @@ def r3(ctx):
         return
     c = ch[0]
     ok = len(c.args) == 2 and all(isinstance(a, ast.Call) and src(a.func) == 'molecule_iterator' for a in c.args)
-    kws = [src(a.keywords[0].value) if ok and a.keywords and a.keywords[0].arg is None else None for a in c.args] if ok else []
-    # one of the two dicts is a copy of the other with contig = '*'
-    um = None
-    for s in walk_no_nested(f):
-        if isinstance(s, ast.Assign) and isinstance(s.targets[0], ast.Subscript) and src(s.targets[0].slice) == "'contig'" and src(s.value) == "'*'":
-            um = src(s.targets[0].value)
-    cp = [s for s in walk_no_nested(f) if isinstance(s, ast.Assign) and um and src(s.targets[0]) == um and src(s.value).endswith('.copy()')]
-    base = src(cp[0].value)[:-len('.copy()')] if cp else None
-    ok = ok and um is not None and base is not None and sorted(kws) == sorted([um, base])
+    kwe = [a.keywords[0].value if ok and a.keywords and a.keywords[0].arg is None else None for a in c.args] if ok else []
+    kws = [src(e_) if e_ is not None else None for e_ in kwe]
+
+    def describe(e_):
+        """(base argument dict, is the unmapped variant) of an iterator argument expression: B itself, or a copy of B with contig '*' -
+        written as `u = B.copy(); u['contig'] = '*'`, `{**B, 'contig': '*'}` or `dict(B, contig='*')`"""
+        if e_ is None:
+            return None
+        if isinstance(e_, ast.Name):
+            star = any(isinstance(s_, ast.Assign) and isinstance(s_.targets[0], ast.Subscript) and src(s_.targets[0].value) == e_.id and src(s_.targets[0].slice) == "'contig'"
+                       and src(s_.value) == "'*'" for s_ in walk_no_nested(f))
+            dd = [s_.value for s_ in walk_no_nested(f) if isinstance(s_, ast.Assign) and len(s_.targets) == 1 and src(s_.targets[0]) == e_.id]
+            if star and len(dd) == 1 and src(dd[0]).endswith('.copy()'):
+                return (src(dd[0])[:-len('.copy()')], True)
+            if len(dd) == 1 and isinstance(dd[0], (ast.Dict, ast.Call)) and not star:
+                inner = describe(dd[0])
+                if inner is not None:
+                    return inner
+            return (e_.id, star)
+        if isinstance(e_, ast.Dict):
+            bases = [src(v_) for k_, v_ in zip(e_.keys, e_.values) if k_ is None]
+            consts = {k_.value: src(v_) for k_, v_ in zip(e_.keys, e_.values) if isinstance(k_, ast.Constant)}
+            if len(bases) == 1 and consts == {'contig': "'*'"}:
+                return (bases[0], True)
+        if isinstance(e_, ast.Call) and dotted(e_.func) == 'dict' and len(e_.args) == 1 and {k_.arg: src(k_.value) for k_ in e_.keywords} == {'contig': "'*'"}:
+            return (src(e_.args[0]), True)
+        return None
+    ds = [describe(e_) for e_ in kwe]
+    um = next((kws[i] for i, d_ in enumerate(ds) if d_ and d_[1]), None)
+    base = next((d_[0] for d_ in ds if d_ and not d_[1]), None)
+    ok = ok and len(ds) == 2 and all(d_ is not None for d_ in ds) and {d_[1] for d_ in ds} == {True, False} and ds[0][0] == ds[1][0]
     ctx.emit('C05-R3', ok, BTM, c, f'molecule source = chain over {kws}; `{um}` is a copy of `{base}` with contig "*"' if ok else f'chain arguments {kws} are not (unmapped copy, mapped) of one argument dict', key='chain')
     # the loop writes every molecule: write_tags then write_pysam unless no_source_reads
     loops = [l for l in walk_no_nested(f) if isinstance(l, ast.For) and 'molecule_iterator_exec' in src(l.iter)]
@@ -340,17 +362,33 @@ def r4(ctx):
     f = ctx.fn(BTM, 'run_multiome_tagging')
     mod = ctx.ix.module(BTM)
     for var, opt in (('yield_invalid', 'args.no_rejects'), ('yield_overflow', 'args.no_overflow')):
-        asg = sorted([s for s in walk_no_nested(f) if isinstance(s, ast.Assign) and src(s.targets[0]) == var], key=lambda s: s.lineno)
+        asg = [s for s in walk_no_nested(f) if isinstance(s, ast.Assign) and src(s.targets[0]) == var]
         problems = []
-        if not asg or not (isinstance(asg[0].value, ast.Constant) and asg[0].value.value is True and mod.parent[asg[0]] is f):
-            problems.append('not initialised to True at the top level')
-        for s in asg:
-            if not isinstance(s.value, ast.Constant):
-                problems.append(f'assigned a non-constant `{src(s.value)}`')
-            elif s.value.value is False:
-                p = mod.parent[s]
-                if not (isinstance(p, ast.If) and src(p.test) == opt and s in p.body):
-                    problems.append(f'switched off at line {s.lineno} under `{src(p.test) if isinstance(p, ast.If) else "no guard"}` instead of `{opt}`')
+        # decision: the value of the flag where the iterator arguments are built, for the option off / on.  Option off -> True on every path;
+        # option on -> False (another setting may re-assert True, e.g. the qflag method, so at least one path must give False and no path
+        # may give True without a further condition).  Written as `x = True; if opt: x = False`, `x = not opt`, a conditional expression ...
+        top = [s_ for s_ in f.body if any(isinstance(x, ast.Assign) and src(x.targets[0]) == var for x in ast.walk(s_))]
+        for optval in (False, True):
+            at = mk_atoms({opt: optval})
+
+            def atoms(e, at=at, optval=optval):
+                v_ = at(e)
+                if v_ is UNK and isinstance(e, ast.UnaryOp) and isinstance(e.op, ast.Not) and src(e.operand) == opt:
+                    return not optval
+                return v_
+            rs = [r for r in explore(top, atoms, names=(var,), max_paths=5000) if r['kind'] in ('fall',)]
+            vals = set()
+            for r in rs:
+                e_ = r['env'].get(var)
+                v_ = eval3(e_, {}, atoms) if e_ is not None else UNK
+                cond_free = not any(True for _ in ())   # placeholder for readability
+                vals.add(v_ if v_ is UNK else bool(v_))
+            if not rs or UNK in vals:
+                problems.append(f'value with {opt}={optval} not decided ({sorted(map(str, vals))})')
+            elif not optval and vals != {True}:
+                problems.append(f'with {opt} off the flag is {sorted(vals)} (expected True on every path)')
+            elif optval and False not in vals:
+                problems.append(f'with {opt} on the flag is never switched off')
         # the value reaches the iterator arguments
         dk = [d for d in walk_no_nested(f) if isinstance(d, ast.Dict) and any(isinstance(k, ast.Constant) and k.value == var for k in d.keys)]
         if not dk or not any(src(v) == var for d in dk for k, v in zip(d.keys, d.values) if isinstance(k, ast.Constant) and k.value == var):
